@@ -186,6 +186,11 @@ class MustWrite:
                 test, pol = node.ast.test, node.pol
                 while isinstance(test, ast.UnaryOp) and isinstance(test.op, ast.Not):
                     test, pol = test.operand, not pol
+                if isinstance(test, ast.Name):
+                    from .idioms import resolve
+                    test = resolve(m.node, test)
+                    while isinstance(test, ast.UnaryOp) and isinstance(test.op, ast.Not):
+                        test, pol = test.operand, not pol
                 if isinstance(test, ast.Call) and is_self_attr(test.func, sn):
                     tgt = cls.lookup(test.func.attr)
                     if tgt is not None and tgt.kind == 'method':
